@@ -18,7 +18,8 @@ def gen(c, binary):
 
 def run(c):
     c.rule = ("one case = one clock script on a real agent.Shard: 40-260 ops mixing events through all 7 Shard entry points and "
-              "Agent.Map+ApplyMetric (timestamps 0, around CurrentTime/SendTime, far past/future, uint32 edge; all 12 allowed "
+              "Agent.Map+ApplyMetric driven like the receiver (ONE long-living scratch per case, metrics of every sharding strategy incl. tags_hash, "
+              "the same logical row repeated with permuted tags / warmer mapping cache / other scratch leftovers) (timestamps 0, around CurrentTime/SendTime, far past/future, uint32 edge; all 12 allowed "
               "resolutions; nil/normal/hardware metric infos; dropIfBeforeTimestamp), flushBuckets(now) with 100 ms ticks, "
               "pauses, jumps ahead (incl. >125 s and whole laps) and back, a consumer that sometimes stalls, "
               "StopReceivingIncomingData, final FlushAllData; plus pure mapAllTags/OriginalMarshalAppend ops under shuffled "
@@ -71,7 +72,7 @@ META = {
              "whenever gap <= 0 and the resolution is allowed; sharpness witnesses show gap=1 or one more future slot would wrap the ring). "
              "placement_deterministic / same_second_on_all_agents: not late and not future-clamped => slot and stored timestamp are functions of "
              "(resolution, hash, timestamp) only; ov_cache_independent / ov_order_independent / resolution_hash_input_independent: the hashed bytes "
-             "do not depend on the mapping cache or (for distinct tag names) tag order. drop_only_when: stop, gap > 0, or before the secondary "
+             "do not depend on the mapping cache, (for distinct tag names) tag order, or the content of the caller's scratch buffer (resolution_hash_ignores_scratch_prefix, resolution_hash_same_on_all_agents). drop_only_when: stop, gap > 0, or before the secondary "
              "shard's start. The model is tied to /repo by replaying every generated script op by op on a real Shard (cell index, stored "
              "timestamp, gap/sendTime returned by flushBuckets, CurrentTime/SendTime, channel length, content of every pushed bucket incl. "
              "ingestion-status counters, marshalled OriginalTagValues and Key tags) and by regenerating the constants from the compiled code."),
